@@ -16,6 +16,7 @@ pub struct Args {
     pub tables: Option<String>,
     pub files: usize,
     pub long: usize,
+    pub script: Option<String>,
 }
 
 fn parse(rest: &[String]) -> Args {
@@ -28,6 +29,7 @@ fn parse(rest: &[String]) -> Args {
         tables: None,
         files: 1,
         long: 0,
+        script: None,
     };
     let mut i = 0;
     while i < rest.len() {
@@ -41,6 +43,7 @@ fn parse(rest: &[String]) -> Args {
             "--tables" => a.tables = Some(v),
             "--files" => a.files = v.parse().unwrap(),
             "--long" => a.long = v.parse().unwrap(),
+            "--script" => a.script = Some(v),
             x => panic!("unknown arg {x}"),
         }
         i += 2;
@@ -57,6 +60,25 @@ pub fn main(rest: &[String]) -> i32 {
     if let Some(t) = &a.tables {
         let v = json!({"z": proj::zobrist_words(), "e": proj::eval_tables()});
         std::fs::write(t, serde_json::to_string(&v).unwrap() + "\n").unwrap();
+    }
+    if let Some(sp) = &a.script {
+        // scripted lines `FEN;uci uci ...`: load, then every move played (each must be in the engine's own list), one event each
+        let mut out = std::io::BufWriter::new(std::fs::File::create(&a.out).unwrap());
+        for line in std::fs::read_to_string(sp).unwrap().lines().filter(|l| !l.trim().is_empty()) {
+            let (fen, moves) = line.split_once(';').unwrap_or((line, ""));
+            let mut game = Game::from_fen(fen.trim()).unwrap();
+            emit(&mut out, "load", None, &game);
+            for u in moves.split_whitespace() {
+                let Some(mv) = game.moves().iter().copied().find(|m| format!("{m:?}") == u) else {
+                    panic!("script move {u} not in the engine's list at {}", game.to_fen());
+                };
+                if !guarded(&mut out, "make", Some(proj::pack_move(mv)), &mut game, |g| g.make_move(mv)) {
+                    break;
+                }
+            }
+        }
+        out.flush().unwrap();
+        return 0;
     }
     let roots: Vec<String> = std::fs::read_to_string(&a.roots)
         .unwrap()
